@@ -72,11 +72,12 @@ fn main() {
                     "every sequence of macro operations over the scenario alphabets within the depth / deviation bounds, each executed on the real engine through its JSON-RPC dispatch table; scenarios: {}; a path is non-trivial when it contains a deviation and was observed; distinct = distinct observation digests",
                     sc.iter().map(|s| format!("{} (depth {}, alphabet {:?})", s.name, s.bounds.depth, s.alphabet.iter().map(|m| m.name.clone()).collect::<Vec<_>>())).collect::<Vec<_>>().join("; ")
                 );
-                let (extra_coverage, extra_violations, extra_errors) = if id == "C02" {
-                    let (c, v, e) = props::golden::check();
-                    (Some(c), v, e)
+                let extra: Option<std::thread::JoinHandle<(serde_json::Value, Vec<explore::Violation>, Vec<String>)>> = if id == "C02" {
+                    Some(std::thread::spawn(props::golden::check))
+                } else if id == "C19" {
+                    Some(std::thread::spawn(props::c19::boundary_pass))
                 } else {
-                    (None, vec![], vec![])
+                    None
                 };
                 let p = ParentCfg {
                     property: id.to_string(),
@@ -93,9 +94,7 @@ fn main() {
                         "release profile with overflow checks off (the shipped arithmetic), panic=unwind so that a panic is observed".into(),
                     ],
                     extra: vec![],
-                    extra_coverage,
-                    extra_violations,
-                    extra_errors,
+                    extra_pass: std::cell::RefCell::new(extra),
                     groups: {
                         let mut g: Vec<String> = sc.iter().map(|s| format!("{}/{}", s.network, s.traces)).collect();
                         g.sort();
@@ -133,6 +132,7 @@ fn main() {
         }
         "serve" => wire::serve_main(&args[2..]),
         "digest" => props::golden::digest_main(&args[2]),
+        "c19-boundary" => props::c19::boundary_main(&args[2]),
         "golden-record" => props::golden::record(),
         "rwlock-probe" => props::c11::rwlock_probe_child(),
         "bench" => {
